@@ -69,6 +69,11 @@ CLAIMED = {
    note="1-2 control points per kernel, 1-2 kernels (x, c, xc), 1-3 reactions; fit consumes fresh symbols for the stored lists (their composition is decided separately); NOT covered: _compute_mol_covs/store_mol_covs (file loading, grid integration, density mask), control-point selection, optimize_cov_and_noise_, MOLGP2, non-default x; likelihood compared at sigma_min = 0.",
    technique="symbolic execution of the training code with exact-real definitions of the LAPACK calls + polynomial normal form / z3 identities on the solved weights; replay on the unmodified code with scipy",
    design="4/C16"),
+ "C10": dict(
+   text="Part A (every place where the team size enters the arithmetic explicitly: the block partitions of the six SDMXcontract_ao_to_bas* routines and of contract_grad_terms_parallel): the partition expressions are extracted from /repo's current C source text and translated to z3 integer terms; for all team sizes 1 <= T <= 4096 and all problem sizes 0 <= ngrids <= 2^31-1-4096 (incl. ngrids < T and T not dividing ngrids) z3 decides that every index is covered by some thread's block, no index by two, every block lies in [0, ngrids), per-thread scratch (malloc(blksize), tmp_priv + ithread*natm of calloc(nthreads*natm)) is large enough and thread-disjoint, the C division operands are non-negative and no int expression exceeds INT_MAX. Part B: data-race freedom of work-shared loops (see note).",
+   note="Part B (race freedom of the remaining `omp for` loops by per-iteration footprints on -fopenmp IR) is only claimed for the routines listed in evidence; nr_numint.c, pbc_tools.c, MKL/MPI branches, BLAS reproducibility and end-to-end runs under different OMP_NUM_THREADS are outside; reassociation inside reductions is allowed by the property.",
+   technique="translation of the C partition expressions (from the current source) to z3 integer arithmetic; unsat = holds for every team size and problem size in the bounds; counterexamples replayed by compiling the same expressions with gcc",
+   design="4/C10"),
  "C09": dict(
    text="Aliasing: every public pure-Python entry (exponents, s2/alpha routines, all map classes, normaliser list, semilocal plan, NLDF plan, eval_xc_cider) is called with caller-owned symbolic arrays and z3 decides on every feasible path that the arrays hold the same terms afterwards. Batching/blocking: the real nr_rks/nr_uks/nr_rks_nldf/nr_uks_nldf are executed symbolically (nao=2, 2 grid points, nset=2; one block of 2 vs two blocks of 1) and compared term-by-term with separate calls on fresh objects. History: interleaved/repeated calls on one plan object and a failed-then-successful call on one kernel object against fresh objects.",
    note="PySCF primitives replaced by numpy reference implementations; generator and eval_xc_cider by contract stubs that keep the per-spin cache statefulness; real max_memory->blksize arithmetic and SDMX buffers outside.",
